@@ -747,7 +747,7 @@ class Engine:
             if name == '__class__':
                 return obj.cls
             v, owner = obj.cls.lookup(name)
-            if v is None:
+            if owner is None:
                 h = M.OBJ_ATTR_MODELS.get(obj.cls.name)
                 if h is not None:
                     r = h(self, obj, name)
@@ -770,7 +770,7 @@ class Engine:
             if name in obj.members:
                 return obj.members[name]
             v, owner = obj.lookup(name)
-            if v is None:
+            if owner is None:
                 h = M.CLASS_ATTR_MODELS.get(obj.name)
                 if h is not None:
                     r = h(self, obj, name)
@@ -901,6 +901,16 @@ class Engine:
         if cls.issubclass(EXC['BaseException']):
             obj.attrs['args'] = tuple(args)
         init, owner = cls.lookup('__init__')
+        if init is None and getattr(cls, 'dataclass_fields', None) is not None:
+            names = [f[0] for f in cls.dataclass_fields]
+            vals = dict(zip(names, args))
+            vals.update(kwargs)
+            for n, has_default in cls.dataclass_fields:
+                if n in vals:
+                    obj.attrs[n] = vals[n]
+                elif not has_default:
+                    self.throw('TypeError', "__init__() missing required argument '%s'" % n)
+            return obj
         if init is not None:
             self.call(BoundMethod(init, obj), args, kwargs)
         else:
@@ -1188,8 +1198,14 @@ class Engine:
             cls.dict[k] = v
         if cls.is_enum:
             self.models.finish_enum(self, cls)
-        for d in node.decorator_list:
-            pass
+        if any('dataclass' in ast.unparse(d) for d in node.decorator_list):
+            fields = []
+            for b in reversed(cls.mro):
+                fields += [f for f in getattr(b, 'dataclass_fields', []) if f not in fields] if b is not cls else []
+            for st in node.body:
+                if isinstance(st, ast.AnnAssign) and isinstance(st.target, ast.Name):
+                    fields = [f for f in fields if f[0] != st.target.id] + [(st.target.id, st.value is not None)]
+            cls.dataclass_fields = fields
         env.vars[node.name] = cls
 
     def make_func_in_class(self, node, outer_env, class_env, cls):
